@@ -74,11 +74,17 @@ WalkCheck == (kind = "walk" /\ WalkEmitAt(par.N)) =>
    /\ \A sm \in {TRUE, FALSE} : LET n == IF sm THEN par.N \div 2 ELSE par.N \div 3 + 3  m == WalkHyp(sm, n) IN
          SumB(m, Len(m)) = par.row[n + 1]                                                   \* Vandermonde
    /\ (par.N % 2 = 0) => SumB(WalkCentral, par.N \div 2 + 1) = par.row[par.N \div 2 + 1]
+   /\ LET m == WalkHyp(TRUE, 5) IN SumB(m, Len(m)) = par.row[6]
+   /\ LET m == WalkHyp(FALSE, par.N - 5) IN SumB(m, Len(m)) = par.row[par.N - 5 + 1]
 WalkEmit == (kind = "walk" /\ WalkEmitAt(par.N)) =>
    /\ PrintT(ToJson([kind |-> "binomial", N |-> par.N, a |-> <<1>>, b |-> <<2>>, lo |-> 0, hi |-> par.N,
                      den |-> Pow2(par.N), mass |-> par.row]))
    /\ PrintT(ToJson(WalkHypRec(TRUE, par.N \div 2)))
    /\ PrintT(ToJson(WalkHypRec(FALSE, par.N \div 3 + 3)))
+   \* strongly skewed members: 5 draws with 7 marked (mean 35/N: the upper support points lie many standard deviations out,
+   \* with masses far above the tolerance), and the mirror image with N - 7 marked and N - 5 draws
+   /\ PrintT(ToJson(WalkHypRec(TRUE, 5)))
+   /\ PrintT(ToJson(WalkHypRec(FALSE, par.N - 5)))
    /\ (par.N % 2 = 0) => PrintT(ToJson(WalkCentralRec))
 
 Init == \/ kind \in {"binomial", "hypergeometric"} /\ par = Null /\ done = FALSE
